@@ -105,6 +105,29 @@ def run(prop, tier):
             records.append(dict(id=rid, kind="probe", want=c["cov"][i], obs=FX.fix(probe(at, c, i))))
             index[rid] = dict(probe=i, **c)
             rid += 1
+    # history independence: after sample() (which redraws the outcomes and rewrites the explicit interaction text) the object returns, at
+    # every coverage vector, what an object built from its own visible data (outcomes, baseline, interaction text) returns; recorded
+    # as "hist" records
+    from atomica.programs import Covout as _Covout
+
+    nhist = 0
+    for c in [x for x in cases_all if x["n"] >= 2 and x["explicit"]][:: max(1, len(cases_all) // 400)]:
+        co, names = make_covout(at, c)
+        co.sigma = 0.125
+        np.random.seed(C.seed() + rid)
+        try:
+            co.sample()
+            rebuilt = _Covout("par", "pop", dict(co.progs), cov_interaction=co.cov_interaction, imp_interaction=co.imp_interaction, baseline=co.baseline)
+            cv = {names[i]: np.array([float(fr(c["cov"][i]))]) for i in range(c["n"])}
+            o1, o2 = float(co.get_outcome(cv)), float(rebuilt.get_outcome(cv))
+        except Exception as ex:
+            V.violation("C12 sample / rebuild raised %s" % type(ex).__name__, dict(case=c, error=str(ex)[:200]))
+            continue
+        records.append(dict(id=rid, kind="hist", obs1=FX.fix(o1), obs2=FX.fix(o2)))
+        index[rid] = dict(probe="sampled object vs the object rebuilt from its visible data", sampled=o1, rebuilt=o2, **c)
+        rid += 1
+        nhist += 1
+    cov["sample_history_probes"] = nhist
     # monotonicity pairs: raise one coverage to the next grid value
     npairs = 0
     for key, d in by_key.items():
